@@ -1,5 +1,266 @@
-"""C03 - Clipped/cropped/translated/converted targets and trait defaults are exact  (metadata; generators live here and/or in props/C03_*.py parts)"""
-CLAIMED = False   # set True by the owner once ./check C03 passes with real theorems
+"""C03 - Clipped/cropped/translated/converted targets and trait defaults are exact."""
+from common import *
+
 LEVEL = 'proof'
-LEVEL_TEXT = 'TODO'
-LEVEL_NOTE = 'TODO'
+CLAIMED = True
+
+RULE = ('correspondence: random histories of 1..4 operations (draw_iter with unordered/duplicate points, fill_contiguous with '
+        'full / short / over-long / empty / endless colour streams, fill_solid, clear) issued through random adapter stacks of '
+        'depth 0..4 (clipped, cropped, translated, color_converted; rectangles chosen relative to the current level box: '
+        'overlapping, containing, inside, disjoint, zero-sized, flat) over parents with non-origin and empty bounding boxes, a '
+        'share of them shifted to +-2^20; every history runs on a draw_iter-only parent (tstack 0: real trait defaults), on a '
+        'native parent (tstack 1) and as call log (tcalls: the calls that reach the parent, i.e. the re-cut colour streams of '
+        'Clipped::fill_contiguous); tcrop drives the Cropped colour iterator alone through a clipped target (all crop positions '
+        'of a small grid + random). Compared: reported bounding_box() of the outermost adapter + root pixel map / call log. '
+        'A case is non-trivial when the model result has a non-empty map / log. search (p_stack): the same histories on the '
+        'implementation against an independent set-theoretic reference (half-open boxes in i64, one shift, a list of clip sets, '
+        'iterated colour map), checking the bounding box reported at EVERY level and the root pixel map; thorough adds the '
+        'exhaustive one-adapter grids.')
+EXHAUSTIVE = {'quick': False, 'thorough': False}
+ASSUMPTIONS = ['extents of every rectangle (parent box, adapter areas, fill areas) are at most i32::MAX (size_fits); for a '
+               'draw_iter-only parent additionally the area that reaches it and its box have representable far edges (rect_fits: '
+               'x+w, y+h <= i32::MAX) - outside this range Rectangle::points saturates and the trait defaults lose pixels',
+               'coordinate additions (translate, top_left + offset) are modelled unbounded; that they stay inside i32 on '
+               'display-scale inputs is C08, not C03']
+TRUSTED = ['modelled, not verified: Iterator::nth / zip / filter / map / repeat of core as list functions (snth, szip, ...); '
+           'usize arithmetic of Cropped::new as unbounded Z (exact while width*height < 2^32, see C08)',
+           'the conforming parent target (stores pixels inside its box, ignores the rest) is the harness IterTarget/NativeTarget; '
+           'colour types are two test colours K2 -> K with Into = (7c+3) mod 256']
+PARTIAL = []
+
+
+def trivial(line, res):
+    if line.startswith('tstack'):
+        return res.endswith('MAP ') or res.endswith('MAP')
+    return res.strip() in ('', 'none', '0')
+
+
+# ---- generators -----------------------------------------------------------------------------------
+def near(rng, box, spread=3, good=0.0):
+    """a rectangle related to `box` = (x0,y0,x1,y1) half open or None: overlapping / inside / containing / disjoint / degenerate;
+    with probability `good` the result is guaranteed to overlap the box"""
+    if box is None:
+        x0, y0, x1, y1 = rng.randrange(-3, 4), rng.randrange(-3, 4), rng.randrange(-3, 4), rng.randrange(-3, 4)
+        x1, y1 = max(x0, x1) + 1, max(y0, y1) + 1
+    else:
+        x0, y0, x1, y1 = box
+    if rng.random() < good:
+        # pick a point of the box and grow a rectangle around it
+        cx, cy = rng.randrange(x0, x1), rng.randrange(y0, y1)
+        ax, ay = cx - rng.randrange(0, spread + 3), cy - rng.randrange(0, spread + 3)
+        return (ax, ay, cx - ax + 1 + rng.randrange(0, spread + 3), cy - ay + 1 + rng.randrange(0, spread + 3))
+    k = rng.random()
+    if k < 0.08:      # zero sized / flat, anywhere near
+        w, h = rng.choice([(0, 0), (0, rng.randrange(1, 6)), (rng.randrange(1, 6), 0), (0, 40), (40, 0)])
+        return (rng.randrange(x0 - 2, x1 + 2), rng.randrange(y0 - 2, y1 + 2), w, h)
+    if k < 0.16:      # disjoint
+        dx = rng.choice([-1, 1]) * (x1 - x0 + rng.randrange(0, 3))
+        return (x0 + dx, y0 + rng.randrange(-2, 3), max(0, x1 - x0 - rng.randrange(0, 2)), rng.randrange(0, 5))
+    if k < 0.24:      # equal
+        return (x0, y0, x1 - x0, y1 - y0)
+    if k < 0.34:      # containing
+        a, b = rng.randrange(0, spread), rng.randrange(0, spread)
+        return (x0 - a, y0 - b, x1 - x0 + a + rng.randrange(0, spread), y1 - y0 + b + rng.randrange(0, spread))
+    # general: corners within spread of the box
+    ax, ay = rng.randrange(x0 - spread, x1 + 1), rng.randrange(y0 - spread, y1 + 1)
+    bx, by = rng.randrange(ax, x1 + spread + 1), rng.randrange(ay, y1 + spread + 1)
+    return (ax, ay, bx - ax, by - ay)
+
+
+def bx_of(r):
+    x, y, w, h = r
+    return None if w == 0 or h == 0 else (x, y, x + w, y + h)
+
+
+def bx_and(a, b):
+    if a is None or b is None:
+        return None
+    r = (max(a[0], b[0]), max(a[1], b[1]), min(a[2], b[2]), min(a[3], b[3]))
+    return None if r[0] >= r[2] or r[1] >= r[3] else r
+
+
+def bx_shift(a, dx, dy):
+    return None if a is None else (a[0] + dx, a[1] + dy, a[2] + dx, a[3] + dy)
+
+
+def stream(rng, n):
+    """colour stream for an area of n points: full, short, over-long, empty, or endless"""
+    k = rng.random()
+    if k < 0.12:
+        return J('I', rng.randrange(1, 250))
+    if k < 0.5:
+        m = n
+    elif k < 0.75:
+        m = rng.randrange(0, n + 1)
+    elif k < 0.8:
+        m = 0
+    else:
+        m = n + rng.randrange(1, 9)
+    return J('L', m, *[rng.randrange(1, 250) for _ in range(m)]) if m else 'L 0'
+
+
+def history(rng, maxdepth=4, maxops=4, big=None):
+    """returns the case line without suite name and kind: '<bb> <nad> <ads> <nops> <ops>'"""
+    base = (0, 0)
+    if big is None:
+        big = rng.random() < 0.12
+    if big:
+        base = (rng.choice([-1, 1]) * rng.randrange(2 ** 20 - 20, 2 ** 20 + 1), rng.choice([-1, 1]) * rng.randrange(2 ** 20 - 20, 2 ** 20 + 1))
+    k = rng.random()
+    if k < 0.08:
+        bb = (rng.randrange(-4, 5), rng.randrange(-4, 5)) + rng.choice([(0, 0), (0, 5), (6, 0)])
+    else:
+        bb = (rng.randrange(-6, 9), rng.randrange(-6, 9), rng.randrange(1, 11), rng.randrange(1, 11))
+    bb = (bb[0] + base[0], bb[1] + base[1], bb[2], bb[3])
+    level = bx_of(bb)
+    empty_origin = (bb[0], bb[1])
+    depth = rng.choice([0, 1, 1, 2, 2, 3, 3, 4][:2 * maxdepth]) if maxdepth else 0
+    ads = []
+    for _ in range(depth):
+        k = rng.random()
+        ref = level if level is not None else (empty_origin[0], empty_origin[1], empty_origin[0] + 1, empty_origin[1] + 1)
+        if k < 0.35:
+            r = near(rng, ref, good=0.7)
+            ads.append(J('C', *r))
+            level = bx_and(bx_of(r), level)
+        elif k < 0.62:
+            r = near(rng, ref, good=0.7)
+            ads.append(J('R', *r))
+            s = bx_and(bx_of(r), level)
+            if s is None:
+                level = None
+                empty_origin = (0, 0)
+            else:
+                level = bx_shift(s, -s[0], -s[1])
+        elif k < 0.88:
+            if big and rng.random() < 0.5:
+                d = (rng.choice([-1, 1]) * rng.randrange(2 ** 20 - 9, 2 ** 20 + 1), rng.choice([-1, 1]) * rng.randrange(2 ** 20 - 9, 2 ** 20 + 1))
+            else:
+                d = (rng.randrange(-5, 6), rng.randrange(-5, 6))
+            ads.append(J('T', *d))
+            level = bx_shift(level, -d[0], -d[1])
+            empty_origin = (empty_origin[0] - d[0], empty_origin[1] - d[1])
+        else:
+            ads.append('V')
+    ref = level if level is not None else (empty_origin[0], empty_origin[1], empty_origin[0] + 2, empty_origin[1] + 2)
+    ops = []
+    for _ in range(rng.randrange(1, maxops + 1)):
+        k = rng.random()
+        if k < 0.25:
+            n = rng.randrange(0, 9)
+            pts = []
+            for _ in range(n):
+                if pts and rng.random() < 0.25:
+                    p = rng.choice(pts)[:2]
+                else:
+                    p = (rng.randrange(ref[0] - 3, ref[2] + 3), rng.randrange(ref[1] - 3, ref[3] + 3))
+                pts.append((p[0], p[1], rng.randrange(1, 250)))
+            ops.append(J('D', n, *[v for p in pts for v in p]))
+        elif k < 0.65:
+            r = near(rng, ref, 4, good=0.5)
+            r = (r[0], r[1], min(r[2], 14), min(r[3], 14))
+            ops.append(J('F', *r, stream(rng, r[2] * r[3])))
+        elif k < 0.9:
+            r = near(rng, ref, 4, good=0.5)
+            ops.append(J('S', r[0], r[1], min(r[2], 40), min(r[3], 40), rng.randrange(1, 250)))
+        else:
+            ops.append(J('K', rng.randrange(1, 250)))
+    return J(*bb, len(ads), *ads, len(ops), *ops)
+
+
+def grid_rects(G, lo=-1):
+    out = []
+    for x in range(G):
+        for y in range(G):
+            for w in range(0, G - x + 1):
+                for h in range(0, G - y + 1):
+                    out.append((x + lo, y + lo, w, h))
+    return out
+
+
+def grid_cases(rng, n=None):
+    """one adapter (C / R / T) over every parent box, adapter rectangle and fill area of a 3x3 grid"""
+    gr = grid_rects(3)
+    out = []
+    for bb in gr:
+        for a in gr:
+            for area in gr:
+                m = area[2] * area[3]
+                for ad in ('C', 'R'):
+                    full = J('L', m, *range(1, m + 1)) if m else 'L 0'
+                    short = J('L', max(0, m - 2), *range(1, max(0, m - 2) + 1)) if m > 2 else 'L 0'
+                    out.append(J(*bb, 1, ad, *a, 2, 'F', *area, full, 'S', *area, 77))
+                    out.append(J(*bb, 1, ad, *a, 2, 'K', 9, 'F', *area, short))
+    if n is not None and n < len(out):
+        out = rng.sample(out, n)
+    return out
+
+
+def crop_cases(rng, tier):
+    out = []
+    G = 4
+    for w in range(0, G + 1):
+        for h in range(0, G + 1):
+            n = w * h
+            for r in grid_rects(G + 1, -1) if tier != 'quick' else rng.sample(grid_rects(G + 1, -1), 40):
+                out.append(J('tcrop', w, h, *r, 'L', n, *range(n)))
+                if n > 3:
+                    out.append(J('tcrop', w, h, *r, 'L', n - 3, *range(n - 3)))
+    for _ in range(400 if tier == 'quick' else 6000):
+        w, h = rng.randrange(0, 13), rng.randrange(0, 13)
+        r = near(rng, (0, 0, max(w, 1), max(h, 1)), 4)
+        out.append(J('tcrop', w, h, *r, stream(rng, w * h)))
+    return out
+
+
+def cases(tier, rng):
+    n = 3000 if tier == 'quick' else 60000
+    for i in range(n):
+        hst = history(rng)
+        yield 'tstack 0 ' + hst
+        yield 'tstack 1 ' + hst
+        if i % 2 == 0:
+            yield 'tcalls 1 ' + hst
+    # adapter-free histories: the trait defaults alone on non-origin / empty boxes
+    for _ in range(n // 6):
+        hst = history(rng, maxdepth=0, maxops=3)
+        yield 'tstack 0 ' + hst
+        yield 'tstack 1 ' + hst
+    for g in grid_cases(rng, 1200 if tier == 'quick' else None):
+        yield 'tstack 0 ' + g
+        yield 'tcalls 1 ' + g
+    yield from crop_cases(rng, tier)
+
+
+def search(tier, rng):
+    n = 5000 if tier == 'quick' else 200000
+    for _ in range(n):
+        yield 'p_stack %d %s' % (rng.randrange(2), history(rng))
+    for g in grid_cases(rng, 2500 if tier == 'quick' else None):
+        yield 'p_stack %d %s' % (rng.randrange(2), g)
+
+
+LEVEL_TEXT = ('Proof: 23 Coq theorems over the Gallina model of the draw-target layer (coq/Model/Target.v: trait defaults unfolded '
+              'literally, the Cropped colour iterator as its next() state machine, the four adapters line by line). Proved for ALL '
+              'inputs in range: default fill_contiguous/fill_solid/clear = row-major points paired with the stream (full, short, '
+              'endless); the Cropped iterator yields exactly the colours at the row-major indices of crop /\\ area (initial skip, row '
+              'skip, flat and disjoint crops) and never runs out of fuel; Clipped never touches a parent pixel outside clip /\\ parent '
+              'box and inside acts exactly like the direct call for draw_iter, fill_contiguous, fill_solid, clear on both kinds of '
+              'parent; Translated/Cropped/ColorConverted are exactly shift / shift+origin box without clipping / colour map; a stack '
+              'of ANY depth equals the composition of these geometric maps (box, visible set, offset, colour map), lifted to whole '
+              'histories. Tie: extracted model and real adapters run on the same random histories (both parent kinds, call logs) '
+              'on every run; direct search against an independent reference.')
+LEVEL_NOTE = ('Quantifier: the theorems cover stacks of any depth (the property asks for depth 3) and all operation histories. '
+              'Trusted: Coq kernel, extraction, the OCaml/Rust drivers, the hand-written model (validated by differential testing, '
+              'not proved equal to the Rust code), core iterator adaptors modelled as list functions. Arithmetic is unbounded Z: the '
+              'theorems need only the extent/far-edge ranges stated in `assumptions`; absence of i32 overflow in translate is C08.')
+
+# Mutation record (2026-09-28, scratch worktrees of /repo, EG_REPO=... ./check C03 [C01] [C08]); all caught:
+#   clipped.rs   Clipped::new without the intersection; fill_solid without the intersection; draw_iter without the filter
+#   cropped.rs   parent.translated(-area.top_left)
+#   translated.rs bounding_box translated by +offset
+#   contiguous.rs nth(initial_skip) ; nth(row_skip + 1) ; `self.x <= width` ; initial skip with crop width instead of
+#                size.width ; row_skip without saturating_sub (revert of 980da77: PANIC contiguous.rs:84) ;
+#                initial skip computed in u16 (caught by C08_targets tok only: needs display-scale areas)
+#   core/src/draw_target/mod.rs  default fill_solid with bounding_box() as area ; default clear with an origin-based
+#                rectangle ; default fill_contiguous clipping the area before zipping     (also caught by C01)
